@@ -1,6 +1,8 @@
 #include "photospline/cinter/splinetable.h"
 #include "photospline/splinetable.h"
 
+#include <limits>
+
 #ifdef __cplusplus
 extern "C" {
 #endif
@@ -187,7 +189,14 @@ double ndsplineeval(const struct splinetable* table, const double* x,
 void ndsplineeval_gradient(const struct splinetable* table, const double* x,
                            const int* centers, double* evaluates){
 	const auto& real_table=*static_cast<const photospline::splinetable<>*>(table->data);
-	real_table.ndsplineeval_gradient(x,centers,evaluates);
+	try{
+		real_table.ndsplineeval_gradient(x,centers,evaluates);
+	}catch(...){
+		//no way to report an error from here, but an exception must not
+		//propagate into C code; mark every result as invalid instead
+		for(uint32_t i=0; i<=real_table.get_ndim(); i++)
+			evaluates[i]=std::numeric_limits<double>::quiet_NaN();
+	}
 }
 	
 double ndsplineeval_deriv(const struct splinetable* table, const double* x,
